@@ -380,6 +380,144 @@ def sym_order():
     return "ok"
 
 
+# ---------------------------------------------------------------------------- the real hash function (no token)
+def _universe():
+    """Option values whose Python equality, JSON form and iteration order differ in the ways that matter for a key."""
+    from immutabledict import immutabledict
+
+    return [0, 1, 2, -1, True, False, 0.0, 1.0, -0.0, 2.5, 10 ** 20, 1e20, "1", "1.0", "a", "", "True", None, "None",
+            (1,), (1.0,), (True,), [1], (1, 2), (2, 1), [1, 2], ((1,), 2), (1, (2,)), (1, 2, 3), ("ab",), ("a", "b"),
+            {"x": 1}, {"x": 1.0}, {"x": 2}, {"y": 1}, {"x": 1, "y": 2}, dict([("y", 2), ("x", 1)]),
+            immutabledict(x=1), immutabledict(x=2), np.int64(1), np.int32(1), np.float64(1.0), np.float64(2.5),
+            np.array([1, 2]), np.array([1.0, 2.0]), np.array([[1, 2]]),
+            {"alpha", "beta", "gamma"}, {"gamma", "beta", "alpha", "alpha"}, {"alpha", "beta"}, {1, 2}, {2, 1},
+            ({"x": 1},), ({"x": 2},)]
+
+
+def canon(v):
+    """Reference model: what a key may depend on - the JSON type and value of every leaf and the container shape
+    (list == tuple == array; mapping == sorted pairs; set == sorted elements).  Equal canon <=> same option value."""
+    from collections.abc import Mapping
+
+    if isinstance(v, bool):
+        return ("b", v)
+    if isinstance(v, (int, np.integer)):
+        return ("i", int(v))
+    if isinstance(v, (float, np.floating)):
+        return ("f", repr(float(v)))
+    if isinstance(v, str):
+        return ("s", v)
+    if v is None:
+        return ("n",)
+    if isinstance(v, Mapping):
+        return ("l", tuple(sorted(("l", (canon(k), canon(x))) for k, x in v.items())))
+    if isinstance(v, (set, frozenset)):
+        return ("l", tuple(sorted(canon(x) for x in v)))
+    if isinstance(v, np.ndarray):
+        return canon(v.tolist())
+    if isinstance(v, (list, tuple)):
+        return ("l", tuple(canon(x) for x in v))
+    raise TypeError(type(v))
+
+
+def _wrapped(v, wrap):
+    if wrap == 0:
+        return v
+    if wrap == 1:  # the way an option value sits in a lineage
+        return {"m1": ("Map_m1", "0.0.1", {"opt": v, "other": 3})}
+    return (v, "x")
+
+
+def _hash_pair_check(i, j, wrap):
+    import strax
+
+    U = _universe()
+    a, b = _wrapped(U[i], wrap), _wrapped(U[j], wrap)
+    try:
+        ha = strax.deterministic_hash(a)
+        hb = strax.deterministic_hash(b)
+    except (TypeError, RecursionError):
+        # a value the hash function refuses loudly (e.g. a tuple holding an immutabledict) cannot become a key at all
+        return None
+    same = canon(U[i]) == canon(U[j])
+    if (ha == hb) != same:
+        return (f"hashfn:values {U[i]!r} ({type(U[i]).__name__}) and {U[j]!r} ({type(U[j]).__name__}) "
+                f"{'share the key ' + ha if ha == hb else 'get different keys'} (wrap {wrap}, hashed in this order)")
+    if strax.deterministic_hash(_wrapped(U[i], wrap)) != ha or strax.deterministic_hash(_wrapped(U[j], wrap)) != hb:
+        return "hashfn:hash of the same value changed on re-evaluation"
+    return None
+
+
+def sym_hashfn(i):
+    """real deterministic_hash / hashablize / NumpyJSONEncoder (json and sha1 are C: values are concrete, the solver
+    picks the pair and the wrapping): two option values share a key iff they are the same value."""
+    n = len(_universe())
+    j = core.concretize(fresh_int("j", 0, n - 1), cap=n + 1)
+    wrap = core.concretize(fresh_int("wrap", 0, 2))
+    bad = _hash_pair_check(i, j, wrap)
+    prove(bad is None, bad or "hashfn:ok")
+    return (j, wrap)
+
+
+def nat_hashfn(params, model):
+    bad = _hash_pair_check(params["i"], model["j"], model["wrap"])
+    return {"ok": bad is None, "detail": bad or "distinct values, distinct keys", "label": bad}
+
+
+_SEED_TABLES = {}
+
+
+def _hash_table():
+    import strax
+
+    return [strax.deterministic_hash(_wrapped(v, 1)) for v in _universe()]
+
+
+def _seed_table(seed):
+    """keys computed by a fresh interpreter started with PYTHONHASHSEED=seed (same strax as this check)"""
+    import json
+    import os
+    import subprocess
+    import sys
+
+    if seed not in _SEED_TABLES:
+        env = dict(os.environ, PYTHONHASHSEED=str(seed), NUMBA_DISABLE_JIT="1")
+        out = subprocess.run([sys.executable, "-W", "ignore", "-c",
+                              "import json, harness.C02 as m; print('TABLE' + json.dumps(m._hash_table()))"],
+                             capture_output=True, text=True, env=env, timeout=300,
+                             cwd=os.path.dirname(os.path.dirname(os.path.abspath(__file__))))
+        line = [l for l in out.stdout.splitlines() if l.startswith("TABLE")]
+        if not line:
+            raise RuntimeError(f"hash table subprocess failed: {out.stderr[-400:]}")
+        _SEED_TABLES[seed] = json.loads(line[0][5:])
+    return _SEED_TABLES[seed]
+
+
+def _seed_check(k, s1, s2):
+    t1, t2 = _seed_table(s1), _seed_table(s2)
+    if t1[k] != t2[k]:
+        v = _universe()[k]
+        return (f"hashseed:key of option value {v!r} ({type(v).__name__}) differs between processes: {t1[k]} with "
+                f"PYTHONHASHSEED={s1}, {t2[k]} with PYTHONHASHSEED={s2}")
+    return None
+
+
+def sym_hashseed():
+    """keys are identical across processes and hash seeds: the solver picks the value and the two seeds"""
+    k = core.concretize(fresh_int("k", 0, len(_universe()) - 1), cap=len(_universe()) + 1)
+    s1 = core.concretize(fresh_int("s1", 0, 3))
+    s2 = core.concretize(fresh_int("s2", 0, 3))
+    assume(s1 < s2)
+    bad = _seed_check(k, s1, s2)
+    prove(bad is None, bad or "hashseed:ok")
+    return k
+
+
+def nat_hashseed(params, model):
+    bad = _seed_check(model["k"], model["s1"], model["s2"])
+    return {"ok": bad is None, "detail": bad or "same key in every process", "label": bad}
+
+
 def sym_twin():
     sym_history(["set_a", "make_t1"])
     prove(False, "twin:reachable")
@@ -425,5 +563,10 @@ OBLIGATIONS = [
            "option / version of d or an ancestor changed"),
     Ob("fuzzy", sym_fuzzy, lambda tier: [dict(kind="type"), dict(kind="option")], nat_fuzzy, setup=_setup, witnesses=1),
     Ob("order", sym_order, lambda tier: [dict()], None, setup=_setup, witnesses=0),
+    Ob("hashfn", sym_hashfn, lambda tier: [dict(i=k) for k in range(len(_universe()))], nat_hashfn, witnesses=1,
+       doc="real deterministic_hash on a typed universe of option values (ordered pairs, three wrappings): same key iff "
+           "same value; stable on re-evaluation"),
+    Ob("hashseed", sym_hashseed, lambda tier: [dict()], nat_hashseed, witnesses=1,
+       doc="keys computed in fresh interpreters under PYTHONHASHSEED 0..3 agree"),
     Ob("twin", sym_twin, lambda tier: [dict()], None, setup=_setup, expect_cex=True),
 ]
